@@ -119,6 +119,8 @@ type Engine struct {
 	lastCut string
 	frexp [][3]string
 	lockOps bool
+	sortSrc string
+	skippedPanics int
 }
 
 func (e *Engine) note(f string, a ...any) {
